@@ -10,17 +10,17 @@ import (
 
 // Config describes one simulated run.
 type Config struct {
-	Src       Source
-	Disk      *Disk // not modified (copied on first write)
-	Cwd       string
-	CPUs      int
+	Src  Source
+	Disk *Disk // not modified (copied on first write)
+	Cwd  string
+	CPUs int
 	// GoMaxProcs is what runtime.GOMAXPROCS(0) reports (0 = same as CPUs). It may exceed the
 	// number of CPUs of the machine (environment variable, embedding program).
 	GoMaxProcs int
 	Tools      ToolModel
-	Faults    []Fault
-	MaxSteps  int
-	KeepTrace bool
+	Faults     []Fault
+	MaxSteps   int
+	KeepTrace  bool
 	// NoPreempt makes the scheduler non-preemptive without consuming choices
 	// (used for canonical runs together with the Zero source; equivalent, cheaper).
 	NoPreempt bool
